@@ -491,6 +491,9 @@ func runFaults(sc *fScenario) (d string, tag string) {
 				w([]byte{0x10, 0xff, 0xff, 0xff, 0x7f, 0x00, 0x04})
 				cl.Close() // the broker may legitimately wait for the announced bytes until its connect timeout
 				selfCut = true
+			case "pre-remlen-five-bytes":
+				// a remaining length of five bytes (not MQTT: at most four) announcing 34 GB
+				w([]byte{0x10, 0xff, 0xff, 0xff, 0xff, 0x7f})
 			case "post-truncated-publish":
 				post()
 				w([]byte{0x30, 0x01, 0x00})
